@@ -19,7 +19,7 @@ RULE = ('Hypothesis RuleBasedStateMachine over the ASan+UBSan agent with 1-3 pre
         'descriptor after closing it, closes twice, or uses a closed descriptor as a directory handle; distinct by history.')
 ASSUME = ['descriptor numbers are issued by wasi.c; the model only requires freshness, not a particular numbering']
 
-NONTRIVIAL = ('use_after_close', 'double_close', 'closed_as_directory', 'never_issued', 'listed_before_close')
+NONTRIVIAL = ('use_after_close', 'double_close', 'closed_as_directory', 'never_issued', 'listed_before_close', 'readdir_on_vanished_directory')
 DIR_CALLS = ('path_open', 'path_filestat_get', 'path_create_directory', 'path_remove_directory', 'path_unlink_file',
              'path_rename_old', 'path_rename_new', 'path_symlink', 'path_readlink', 'fd_readdir')
 
@@ -32,10 +32,11 @@ class C13Machine(RuleBasedStateMachine):
         super().__init__()
         self.ex = None
 
-    @initialize(npre=st.integers(1, 3))
-    def start(self, npre):
+    @initialize(npre=st.integers(1, 3), mode=st.sampled_from([0, 0, 1, 2, 3, 5, 7]))
+    def start(self, npre, mode):
         self.ex = wasifs.FsExecutor(npreopen=npre)
         wasihyp.LAST['npreopen'] = npre
+        self.ex.set_edge(mode)
 
     @rule(target=live, name=st.sampled_from(['a', 'b.txt', 'dir1', 'dir1/x', 'new1', 'emptydir', 'dir2/sub']),
           directory=st.booleans(), write=st.booleans(), pre=st.integers(0, 2))
@@ -77,6 +78,28 @@ class C13Machine(RuleBasedStateMachine):
         if self.ex.fds[fd]['kind'] == 'dir':
             self.ex.flags.add('listed_before_close')
             self.ex.readdir(fd, bufsize, None, False)
+
+    @rule(target=closed, name=st.sampled_from(['vd1', 'vd2', 'emptydir']), how=st.sampled_from(['remove_directory', 'rename']),
+          relist=st.integers(1, 2), bufsize=st.sampled_from([64, 256]))
+    def vanish(self, name, how, relist, bufsize):
+        # a directory that disappears (removed / renamed away) while a descriptor with an open listing refers to it: the descriptor
+        # stays valid, restarting the listing must stay memory-safe, and fd_close must release the host-side state exactly once
+        ex = self.ex
+        dirfd = ex.preopens[0]
+        ex.path_op('create_directory', dirfd, name)
+        fd = ex.open_dir(dirfd, name)
+        if fd is None:
+            return multiple()
+        ex.readdir(fd, bufsize, None, False)
+        if how == 'rename':
+            ex.path_op('rename', dirfd, name, name + '.moved', dirfd)
+        else:
+            ex.path_op('remove_directory', dirfd, name)
+        for _ in range(relist):
+            ex.readdir(fd, bufsize, None, False)
+        ex.flags.add('listed_before_close')
+        ex.fd_close(fd)
+        return fd
 
     @rule(fd=live, lens=st.lists(st.sampled_from([1, 8]), min_size=1, max_size=2))
     def read_live(self, fd, lens):
